@@ -153,6 +153,15 @@ where
                 if with_pool(|p| p.calls) != calls {
                     st.x("reset-to-start-called-the-base-allocator", "");
                 }
+                {
+                    // everything is free again and the FIRST chunk is the current one
+                    let stats = bump.stats();
+                    let first = stats.small_to_big().next().map(|c| c.chunk_start().as_ptr() as usize);
+                    let cur = stats.current_chunk().map(|c| c.chunk_start().as_ptr() as usize);
+                    if stats.allocated() != 0 || first != cur {
+                        st.x("reset-to-start-did-not-rewind-to-the-first-chunk", &format!("allocated={} after reset_to_start", stats.allocated()));
+                    }
+                }
                 stats_line(st, bump.as_scope());
             }
             Op::TryErr { mutable, ty } => try_err(st, bump.as_mut_scope(), fail, mutable, ty),
@@ -306,7 +315,7 @@ fn main() {
     }));
     let mut mk = |rng: Rng, script: Option<Vec<(bool, Op)>>, ops: usize, fail_rate: u64, big: bool| St {
         out: String::new(), rng, script: script.map(|v| v.into()), blocks: vec![], next_id: 0, seed_ctr: 0, epoch: 0,
-        cp_store: vec![], next_cp: 0, ops_left: ops, depth: 0, max_depth: 6, fail_rate, big, xlines: 0, dead: false, h: 0,
+        cp_store: vec![], next_cp: 0, ops_left: ops, depth: 0, max_depth: 6, fail_rate, big, xlines: 0, dead: false, second_newest: 0, h: 0,
     };
     if !script.is_empty() {
         for (idx, sd, og, init, ia, opsv) in parse_script(&script) {
